@@ -1,6 +1,7 @@
 """C06 - the printed JSON parses back to exactly the decoded document (E1 over adversarial JSON documents)."""
 import itertools
 import json
+from mc import strictjson
 import os
 import tempfile
 
@@ -40,6 +41,7 @@ def plan(tier, seed):
     ch.append({'k': 'e2e_text'})
     ch.append({'k': 'e2e_json'})
     ch.append({'k': 'e2e_cli'})
+    ch.append({'k': 'numbers'})
     if tier == 'thorough':
         for t in TOKENS9:
             for t2 in TOKENS9:
@@ -67,7 +69,7 @@ def check_pp(doc, space, pt):
     src = json.dumps(doc, indent=4)
     pp = pt.prettyPrint(src, space) if space is not None else pt.prettyPrint(src)
     try:
-        back = json.loads(pp)
+        back = strictjson.loads(pp)
     except Exception as e:
         return 'not-json', 'printed text does not parse: %s' % e
     if json.dumps(back) != json.dumps(doc):
@@ -95,6 +97,74 @@ def eval_case(case):
         out.extend(_e2e(case, pt))
     elif case['k'] == 'cli':
         out.extend(_cli(case, pt))
+    elif case['k'] == 'numbers':
+        out.extend(_numbers(case, pt))
+    return out
+
+
+# JSON user data whose numbers sit at the edges of what the printed document can hold (RFC 8259 has no NaN/Infinity)
+NUMBER_TEXTS = ['0', '-0', '-0.0', '1e22', '1E+22', '0.1', '1e-400', '1.7976931348623157e308', '1e308', '9e308', '1e309', '1e999',
+                '-1e999', '1E400', '[1e999]', '{"a": 1e999}', '{"a": [1, {"b": -1e400}]}', 'NaN', '-NaN', 'Infinity', '-Infinity',
+                '[NaN]', '{"a": Infinity}', '{"a": "NaN", "b": "Infinity"}', '9007199254740993', '-9223372036854775809',
+                '1' + '0' * 400, '1.' + '5' * 400, '123456789012345678901234567890.5', '[1.0, 1, 1e0]', '4e-324', '5e-324',
+                '2.2250738585072014e-308', '{"big": 1e999, "neg": -1e999, "txt": "ok"}', '{"v": 1e299}', '{"v": 9e299}']
+
+
+def _numbers(case, pt):
+    out = []
+    texts = case['texts']
+    with tempfile.TemporaryDirectory(prefix='c06n_', dir=clidrv.scratch_root()) as d:
+        os.mkdir(os.path.join(d, 'in'))
+        os.mkdir(os.path.join(d, 'out'))
+        specs = []
+        for i, t in enumerate(texts):
+            eid = 0x50000300 + i
+            secs = [{'t': 'PS'}, {'t': 'UD', 'comp': 0x2000, 'sub': 1, 'payload': t.encode().hex()},
+                    {'t': 'ED', 'creator': 'O', 'comp': 0x2000, 'sub': 1, 'payload': ('{"x": [%s]}' % t).encode().hex()}]
+            spec = pelgen.pel_from_spec({'eid': eid, 'plid': eid, 'sections': secs})
+            specs.append(spec)
+            with open(os.path.join(d, 'in', 'n%02d' % i), 'wb') as f:
+                f.write(pelgen.encode_pel(spec))
+        bad = lambda what, detail: out.append({'key': 'C06:' + what, 'what': '%s: %s' % (what, detail), 'case': case})
+        docs = []
+        for i, spec in enumerate(specs):
+            r = decode.parse(pelgen.encode_pel(spec))
+            if r['kind'] != 'doc':
+                bad('number-not-json' if r['kind'] == 'badjson' else 'number-not-decoded',
+                    'JSON user data %r: %s %s' % (texts[i], r['kind'], r.get('msg')))
+                docs.append(None)
+                continue
+            docs.append(r['doc'])
+            for sname, sec in (('User Data', spec['sections'][1]), ('Extended User Data', spec['sections'][2])):
+                m = pelgen.check_builtin(sec, r['doc'].get(sname), 'O', {})
+                if m:
+                    bad('number-changed', 'JSON user data %r: %s' % (texts[i], '; '.join(m)))
+        if None in docs:
+            return out
+        r = clidrv.run_main(['-p', os.path.join(d, 'in'), '-a'])
+        try:
+            if strictjson.loads(r.stdout) != docs:
+                bad('number-all', '-a documents differ from the decoded ones for %r' % (texts,))
+        except Exception as e:
+            bad('number-all-not-json', '-a output for JSON user data %r does not parse: %s' % (texts, e))
+        for i in range(len(texts)):
+            r = clidrv.run_main(['-f', os.path.join(d, 'in', 'n%02d' % i)])
+            try:
+                if strictjson.loads(r.stdout) != docs[i]:
+                    bad('number-file', '-f document differs from the decoded one for %r' % texts[i])
+            except Exception as e:
+                bad('number-file-not-json', '-f output for JSON user data %r does not parse: %s' % (texts[i], e))
+        clidrv.run_main(['-p', os.path.join(d, 'in'), '-j', '-o', os.path.join(d, 'out')])
+        files = sorted(os.listdir(os.path.join(d, 'out')))
+        if len(files) != len(texts):
+            bad('number-json-files', '%d files written for %d PELs' % (len(files), len(texts)))
+        for fn, doc in zip(files, docs):
+            try:
+                with open(os.path.join(d, 'out', fn)) as f:
+                    if strictjson.loads(f.read()) != doc:
+                        bad('number-json-file', '%s differs from the decoded document' % fn)
+            except Exception as e:
+                bad('number-json-file-not-json', '%s does not parse: %s' % (fn, e))
     return out
 
 
@@ -118,7 +188,7 @@ def _e2e(case, pt):
         return [{'key': 'C06:e2e-not-decoded', 'what': '%s %s' % (r['kind'], r.get('msg')), 'case': case}]
     ud = r['doc'].get('User Data', {})
     if via == 'text':
-        from mc.checks.c04 import text_lines
+        from mc.pelgen import text_lines
         want = text_lines('first\n' + s + '\nlast')
         if ud.get('Data') != want:
             out.append({'key': classify(s, 'e2e-text'), 'what': 'text lines %r printed as %r' % (want, ud.get('Data')), 'case': case})
@@ -149,7 +219,7 @@ def _cli(case, pt):
         bad = lambda what, detail: out.append({'key': classify(''.join(codes), what), 'what': '%s: %s' % (what, detail), 'case': case})
         r = clidrv.run_main(['-p', os.path.join(d, 'in'), '-l', '-E'])
         try:
-            lst = json.loads(r.stdout)
+            lst = strictjson.loads(r.stdout)
             got = {k: v.get('SRC') for k, v in lst.items()}
             if got != want:
                 bad('list', 'reference codes %r listed as %r' % (want, got))
@@ -157,12 +227,12 @@ def _cli(case, pt):
             bad('list-not-json', '-l output does not parse: %s' % e)
         r = clidrv.run_main(['-p', os.path.join(d, 'in'), '-a', '-E'])
         try:
-            docs = json.loads(r.stdout)
+            docs = strictjson.loads(r.stdout)
             got = {x['Private Header']['Entry Id']: x['Primary SRC']['Reference Code'] for x in docs}
             if got != want:
                 bad('all', 'reference codes %r displayed as %r' % (want, got))
             for x, code in zip(docs, codes):
-                if x['User Data']['Data'] != ['x": y', code.rstrip()] and x['User Data']['Data'] != ['x": y', code.strip()]:
+                if x['User Data']['Data'] not in (['x": y', code], ['x": y', code.rstrip('\0')]):
                     bad('all-text', 'text lines displayed as %r' % (x['User Data']['Data'],))
         except Exception as e:
             bad('all-not-json', '-a output does not parse: %s' % e)
@@ -201,7 +271,7 @@ def _cli(case, pt):
                 for mode in ('-a', '-l'):
                     r = clidrv.run_main(['-p', hid, mode] + extra)
                     try:
-                        v = json.loads(r.stdout)
+                        v = strictjson.loads(r.stdout)
                         got = [x['Private Header']['Entry Id'] for x in v] if mode == '-a' else list(v)
                         if got != want_ids:
                             out.append({'key': 'C06:filtered-list', 'what': '%s %s with files %s lists %s, expected %s' % (mode, extra, pattern, got, want_ids), 'case': case})
@@ -226,13 +296,13 @@ def _cli(case, pt):
                     with open(os.path.join(re_out, fn)) as f:
                         text = f.read()
                     try:
-                        if json.loads(text) != json.loads(rf.stdout):
+                        if strictjson.loads(text) != strictjson.loads(rf.stdout):
                             out.append({'key': 'C06:json-rewrite', 'what': '%s differs from the -f document after re-running --json (%s)' % (fn, order), 'case': case})
                     except Exception as e:
                         out.append({'key': 'C06:json-rewrite-not-json', 'what': '%s written by a repeated --json run (%s) does not parse: %s' % (fn, order, e), 'case': case})
         r = clidrv.run_main(['-f', os.path.join(d, 'in', 'f000'), '-E'])
         try:
-            x = json.loads(r.stdout)
+            x = strictjson.loads(r.stdout)
             if x['Primary SRC']['Reference Code'] != codes[0].strip():
                 bad('file', 'reference code %r displayed as %r' % (codes[0], x['Primary SRC']['Reference Code']))
         except Exception as e:
@@ -281,9 +351,11 @@ def run_chunk(chunk):
         for n in range(1, 4):
             for t in itertools.product(toks, repeat=n):
                 s = ''.join(t)
-                if via == 'text' and (s != s.strip() or not s):
-                    continue
                 _do(res, {'k': 'e2e', 'via': via, 's': s}, s, every=499)
+    elif k == 'numbers':
+        for i in range(0, len(NUMBER_TEXTS), 4):
+            grp = NUMBER_TEXTS[i:i + 4]
+            _do(res, {'k': 'numbers', 'texts': grp}, '{' + ''.join(grp), every=2)
     elif k == 'e2e_cli':
         codes = []
         for t in itertools.product(['"', ':', ' ', '{', 'B', '\\'], repeat=2):
@@ -319,7 +391,7 @@ def _encodings(res):
                 p = subprocess.run([core.PY, clidrv.PELTOOL_PY, '-f', path, '-E'], capture_output=True, env=env, timeout=60)
                 probs = []
                 try:
-                    doc = json.loads(p.stdout.decode(enc))
+                    doc = strictjson.loads(p.stdout.decode(enc))
                     got = {k: v for k, v in doc['User Data'].items() if k not in ('Section Version', 'Sub-section type', 'Created by')}
                     if got != value:
                         probs.append('document printed with a %s stdout differs from the decoded value' % enc)
@@ -334,7 +406,7 @@ def _encodings(res):
                 try:
                     with open(fn, 'rb') as f:
                         text = f.read()
-                    doc = json.loads(text.decode('utf-8', 'surrogatepass') if enc != 'ascii' else text.decode('ascii'))
+                    doc = strictjson.loads(text.decode('utf-8', 'surrogatepass') if enc != 'ascii' else text.decode('ascii'))
                     got = {k: v for k, v in doc['User Data'].items() if k not in ('Section Version', 'Sub-section type', 'Created by')}
                     if got != value:
                         probs.append('file written by --json differs from the decoded value')
